@@ -51,7 +51,7 @@ static void c03_run(vf_case *c)
         xo.Fact = DOFACT;
         xdrv_init(&D, P, &A, o.rowmajor, 0, 0, 0, NULL, ilu);
         if (xo.ColPerm == MY_PERMC) memcpy(D.perm_c, mypc, sizeof(int) * (size_t)n);
-        if (rng_bool(r, 0.4)) { D.lwork = (int_t)generous_lwork(P, n, A.nnz); work = malloc((size_t)D.lwork); D.work = work; vf_tag(c, "mem=workspace"); } else vf_tag(c, "mem=malloc");
+        if (rng_bool(r, 0.4)) { D.lwork = (int_t)generous_lwork(P, n, A.nnz); work = vf_ws_alloc(c, (size_t)D.lwork); D.work = work; vf_tag(c, "mem=workspace"); } else vf_tag(c, "mem=malloc");
         xdrv_call(&D, &xo); info = D.info; Lp = &D.L; Up = &D.U;
         vf_tag(c, "%s", o.rowmajor ? "NR" : "NC"); vf_tag(c, "equed=%c", D.equed[0]);
         if (ilu) { vf_tag(c, "ilurule=0x%x", xo.ILU_DropRule & 0xf); vf_tag(c, "rowperm=%d", (int)xo.RowPerm); }
